@@ -34,8 +34,8 @@ type Config struct {
 	// names of the form language.codeset (glibc ships C.UTF-8; a codeset
 	// named explicitly on the C/POSIX locale is that codeset).
 	LocaleForm int
-	MapMode   int
-	MapSeed   uint64
+	MapMode    int
+	MapSeed    uint64
 }
 
 func (c Config) String() string {
@@ -95,6 +95,11 @@ func (w *World) Failf(tag, format string, args ...interface{}) {
 	}
 }
 
+// TiEdit, when set, edits the private copy of the terminal description the
+// next worlds are built from (an application that customises an entry and
+// hands it to NewTerminfoScreenFromTtyTerminfo under its old name).
+var TiEdit func(*terminfo.Terminfo)
+
 // NewWorld creates the simulation, the fake tty and the screen (not yet
 // initialised: Init must run on a simulated goroutine).
 func NewWorld(cfg Config, ch *simrt.Chooser) (*World, error) {
@@ -143,6 +148,10 @@ func NewWorld(cfg Config, ch *simrt.Chooser) (*World, error) {
 	ti := Term(cfg.Term, cfg.TrueColor)
 	if ti == nil {
 		return nil, fmt.Errorf("unknown terminal %q", cfg.Term)
+	}
+	if TiEdit != nil {
+		// the application's own (edited) copy of the description
+		TiEdit(ti)
 	}
 	s := simrt.New(ch)
 	s.Go123Timer = cfg.Go123
